@@ -122,6 +122,7 @@ fn canonical_variant(world: &World, role: &str) -> Variant {
         dir_seed: 0,
         hash_seed: 1,
         faults: vec![],
+        unprivileged: false,
     }
 }
 
@@ -134,7 +135,7 @@ fn random_variant(rng: &mut Rng, world: &World, role: &str, max_files: usize) ->
     }
     let args = present(rng, &files);
     let entry = if rng.chance(1, 5) { Entry::ApiText } else { Entry::Check };
-    Variant { role: role.to_string(), entry, files, extras: vec![], args, dir_seed: rng.next(), hash_seed: rng.next(), faults: vec![] }
+    Variant { role: role.to_string(), entry, files, extras: vec![], args, dir_seed: rng.next(), hash_seed: rng.next(), faults: vec![], unprivileged: false }
 }
 
 // ---------------------------------------------------------------------------------------------
@@ -320,7 +321,7 @@ fn oracle_c06(t: &WorldTrace, obs: &[Obs], stats: &mut Stats) -> Vec<Violation> 
 // C13: command-line contract
 
 fn static_fault(rng: &mut Rng, v: &mut Variant) -> &'static str {
-    match rng.below(9) {
+    match rng.below(14) {
         0 => {
             let pos = rng.below(v.args.len() + 1);
             v.args.insert(pos, "ws/missing.st".into());
@@ -369,10 +370,39 @@ fn static_fault(rng: &mut Rng, v: &mut Variant) -> &'static str {
             v.args.clear();
             "no_arguments"
         }
-        _ => {
+        8 => {
             // directory given through a path with dot components
             v.args = vec!["ws/../ws/.".into()];
             "dotted_path"
+        }
+        // permission faults: the simulated process is an ordinary user, the path is there but
+        // may not be read (EACCES from the real kernel)
+        9 | 10 => {
+            v.unprivileged = true;
+            if let Some(f) = v.files.get(rng.below(v.files.len().max(1))) {
+                v.extras.push(Extra::Mode(f.name.clone(), *rng.pick(&[0o000, 0o200, 0o333])));
+            }
+            "unreadable_file"
+        }
+        11 => {
+            // the directory can be neither listed nor searched
+            v.unprivileged = true;
+            v.extras.push(Extra::Mode(String::new(), *rng.pick(&[0o000, 0o111, 0o300])));
+            "unreadable_directory"
+        }
+        12 => {
+            // the directory can be listed but its entries cannot be reached
+            v.unprivileged = true;
+            v.extras.push(Extra::Mode(String::new(), *rng.pick(&[0o444, 0o644])));
+            "unsearchable_directory"
+        }
+        _ => {
+            v.extras.push(Extra::SocketFile("sock.st".into()));
+            if !v.args.iter().any(|a| a == "ws") {
+                let pos = rng.below(v.args.len() + 1);
+                v.args.insert(pos, "ws/sock.st".into());
+            }
+            "socket_file"
         }
     }
 }
@@ -439,7 +469,7 @@ fn gen_c13_boundary(rng: &mut Rng, index: u64) -> WorldTrace {
         }
     };
     let world = World { decls, fault: None };
-    let v = Variant { role: role.into(), entry, files, extras: vec![], args: vec!["ws".into()], dir_seed: rng.next(), hash_seed: rng.next(), faults: vec![] };
+    let v = Variant { role: role.into(), entry, files, extras: vec![], args: vec!["ws".into()], dir_seed: rng.next(), hash_seed: rng.next(), faults: vec![], unprivileged: false };
     WorldTrace { prop: "C13".into(), world, variants: vec![v], mode: format!("boundary:{n}") }
 }
 
@@ -483,6 +513,7 @@ pub fn gen_c13(rng: &mut Rng, thorough: bool, run_index: u64) -> WorldTrace {
         dir_seed: rng.next(),
         hash_seed: rng.next(),
         faults: vec![],
+        unprivileged: false,
     };
     let file_args = |rng: &mut Rng| {
         let mut l: Vec<String> = files.iter().map(|f| format!("ws/{}", f.name)).collect();
@@ -865,7 +896,7 @@ pub fn gen_c14(rng: &mut Rng, thorough: bool, run_index: u64) -> WorldTrace {
         let file = FileSpec { name: "sweep.st".into(), decls: vec![], enc: Enc::Utf8, raw: Some(sweep_bytes(position, byte)) };
         let mut variants = vec![];
         for entry in [Entry::Check, Entry::Tokenize, Entry::ApiPush, Entry::Echo, Entry::LspTokens] {
-            variants.push(Variant { role: "corrupt".into(), entry, files: vec![file.clone()], extras: vec![], args: vec!["ws/sweep.st".into()], dir_seed: 1, hash_seed: rng.next(), faults: vec![] });
+            variants.push(Variant { role: "corrupt".into(), entry, files: vec![file.clone()], extras: vec![], args: vec!["ws/sweep.st".into()], dir_seed: 1, hash_seed: rng.next(), faults: vec![], unprivileged: false });
         }
         return WorldTrace { prop: "C14".into(), world, variants, mode: format!("sweep:{}:{byte}", ["string", "comment", "between_tokens", "identifier"][position]) };
     }
@@ -892,10 +923,10 @@ pub fn gen_c14(rng: &mut Rng, thorough: bool, run_index: u64) -> WorldTrace {
         for role in ["twin", "twin", "twin"] {
             let mut f = files.clone();
             assign_encodings(rng, &world, &mut f, allow_1252);
-            variants.push(Variant { role: role.into(), entry, files: f, extras: vec![], args: args.clone(), dir_seed, hash_seed, faults: vec![] });
+            variants.push(Variant { role: role.into(), entry, files: f, extras: vec![], args: args.clone(), dir_seed, hash_seed, faults: vec![], unprivileged: false });
         }
         // reference twin: plain UTF-8
-        variants.insert(0, Variant { role: "reference".into(), entry, files: files.clone(), extras: vec![], args, dir_seed, hash_seed, faults: vec![] });
+        variants.insert(0, Variant { role: "reference".into(), entry, files: files.clone(), extras: vec![], args, dir_seed, hash_seed, faults: vec![], unprivileged: false });
         WorldTrace { prop: "C14".into(), world, variants, mode: "twins".into() }
     } else {
         // corrupted storage
@@ -904,7 +935,7 @@ pub fn gen_c14(rng: &mut Rng, thorough: bool, run_index: u64) -> WorldTrace {
             assign_encodings(rng, &world, &mut f, true);
             let args = present(rng, &f);
             let entry = *rng.pick(&[Entry::Check, Entry::Check, Entry::ApiPush, Entry::Tokenize, Entry::Echo, Entry::LspTokens]);
-            let mut v = Variant { role: "corrupt".into(), entry, files: f, extras: vec![], args, dir_seed: rng.next(), hash_seed: rng.next(), faults: vec![] };
+            let mut v = Variant { role: "corrupt".into(), entry, files: f, extras: vec![], args, dir_seed: rng.next(), hash_seed: rng.next(), faults: vec![], unprivileged: false };
             let fi = rng.below(v.files.len());
             let mut bytes = file_bytes(&world, &v.files[fi]);
             match rng.below(7) {
@@ -1140,7 +1171,7 @@ pub fn gen_c03(rng: &mut Rng, thorough: bool) -> WorldTrace {
     }
     let company: Vec<usize> = (0..world.decls.len()).filter(|d| !involved.contains(d)).collect();
     let faulty_file = |name: &str| FileSpec { name: name.to_string(), decls: involved.clone(), enc: Enc::Utf8, raw: None };
-    let mk = |role: &str, entry: Entry, files: Vec<FileSpec>, args: Vec<String>, rng: &mut Rng| Variant { role: role.into(), entry, files, extras: vec![], args, dir_seed: rng.next(), hash_seed: rng.next(), faults: vec![] };
+    let mk = |role: &str, entry: Entry, files: Vec<FileSpec>, args: Vec<String>, rng: &mut Rng| Variant { role: role.into(), entry, files, extras: vec![], args, dir_seed: rng.next(), hash_seed: rng.next(), faults: vec![], unprivileged: false };
     let mut variants = vec![mk("alone", Entry::Check, vec![faulty_file("faulty.st")], vec!["ws/faulty.st".into()], rng)];
     // reference for "the company is valid": the accompanying declarations alone
     let mut company_only = mk("company", Entry::Check, vec![FileSpec { name: "company.st".into(), decls: company.clone(), enc: Enc::Utf8, raw: None }], vec!["ws/company.st".into()], rng);
@@ -1329,6 +1360,7 @@ pub fn execute(t: &WorldTrace, stats: &mut Stats) -> RunReport {
                 label: format!("{} {}", v.role, world_kind(&t.world)),
                 files: v.files.iter().map(|f| (f.name.clone(), file_bytes(&t.world, f))).collect(),
                 extras: v.extras.clone(),
+                unprivileged: v.unprivileged,
                 cmd: cmd.to_string(),
                 args: v.args.clone(),
                 predicted_ok: !o.failed(),
